@@ -103,5 +103,19 @@ func refactorSpecials(r *Rng) []refactorSpecial {
 	add("literals-defined-types",
 		fmt.Sprintf("type Level int\n\nfunc Tag(a Level) string {\n\tif a > %d {\n\t\treturn \"high-%d\"\n\t}\n\treturn \"low\"\n}\n", 1000+k, k),
 		fmt.Sprintf("type Level int\n\nfunc Tag(a Level) string {\n\tif a > %d {\n\t\treturn \"HIGH/%d\"\n\t}\n\treturn \"small\"\n}\n", 7000+k2, k2), nil)
+	// large integer literals in the HEADER of a counted loop (bound, step, start): the comparison and the
+	// update print `<int_literal>`, but the loop summary (closed form {start, +, step}, TripCount) is
+	// rendered by the SCEV printer - known finding F17 while it prints the number itself
+	add("big-literal-in-counted-loop-header",
+		fmt.Sprintf("func Bound(s []int) int {\n\tt := 0\n\tfor i := 0; i < %d; i++ {\n\t\tt += s[i%%len(s)]\n\t}\n\treturn t\n}\n\nfunc Step(n int) int {\n\tt := 0\n\tfor i := 0; i < n; i += %d {\n\t\tt += i\n\t}\n\treturn t\n}\n\nfunc Start(n int) int {\n\tt := 0\n\tfor i := %d; i < n; i++ {\n\t\tt += i\n\t}\n\treturn t\n}\n", 100+k, 100+k2, 100+k),
+		fmt.Sprintf("func Bound(s []int) int {\n\tt := 0\n\tfor i := 0; i < %d; i++ {\n\t\tt += s[i%%len(s)]\n\t}\n\treturn t\n}\n\nfunc Step(n int) int {\n\tt := 0\n\tfor i := 0; i < n; i += %d {\n\t\tt += i\n\t}\n\treturn t\n}\n\nfunc Start(n int) int {\n\tt := 0\n\tfor i := %d; i < n; i++ {\n\t\tt += i\n\t}\n\treturn t\n}\n", 200+k2, 300+k, 300+k2), nil)
+	// a directly recursive function that an EARLIER declared (and earlier fingerprinted) function calls,
+	// renamed to a name that keeps / that changes its place in the order of the functions: whatever a
+	// canonicaliser remembers about a callee from the caller's pass, the recursive function's reference
+	// to itself stays <self>
+	add("rename-recursive-function-called-by-an-earlier-one",
+		fmt.Sprintf("func Driver(n int) int {\n\treturn Walk(n) + %d\n}\n\nfunc Walk(n int) int {\n\tif n <= 0 {\n\t\treturn 0\n\t}\n\treturn Walk(n-1) + n\n}\n\nfunc Again(n int) int {\n\treturn Walk(n-%d) * Zip(n)\n}\n\nfunc Zip(n int) int {\n\tif n < 2 {\n\t\treturn 1\n\t}\n\treturn Zip(n/2) + Zip(n-2)\n}\n", k, k2),
+		fmt.Sprintf("func Driver(n int) int {\n\treturn Xwalk(n) + %d\n}\n\nfunc Xwalk(n int) int {\n\tif n <= 0 {\n\t\treturn 0\n\t}\n\treturn Xwalk(n-1) + n\n}\n\nfunc Again(n int) int {\n\treturn Xwalk(n-%d) * Bzip(n)\n}\n\nfunc Bzip(n int) int {\n\tif n < 2 {\n\t\treturn 1\n\t}\n\treturn Bzip(n/2) + Bzip(n-2)\n}\n", k, k2),
+		map[string]string{"Walk": "Xwalk", "Zip": "Bzip"})
 	return out
 }
